@@ -294,6 +294,20 @@ func MakeUtxo(sctx *context.StateCtx, metaHandle *meta.Meta, cachesize, tmplockS
 	return utxoVM, nil
 }
 
+// ReloadTotal 从meta表重新加载总资产，丢弃内存里尚未写盘的变更
+func (uv *UtxoVM) ReloadTotal() error {
+	utxoTotalBytes, findTotalErr := uv.metaHandle.MetaTable.Get([]byte(UTXOTotalKey))
+	if findTotalErr != nil {
+		if def.NormalizedKVError(findTotalErr) != def.ErrKVNotFound {
+			return findTotalErr
+		}
+		uv.utxoTotal = big.NewInt(0)
+		return nil
+	}
+	uv.utxoTotal = big.NewInt(0).SetBytes(utxoTotalBytes)
+	return nil
+}
+
 func (uv *UtxoVM) UpdateUtxoTotal(delta *big.Int, batch kvdb.Batch, inc bool) {
 	if inc {
 		uv.utxoTotal = uv.utxoTotal.Add(uv.utxoTotal, delta)
